@@ -4,7 +4,7 @@ Values are Python objects whose leaves are z3 Int/Bool terms; machine integers a
 integers with exact two's-complement wrap (see `wrap`), decided by z3 (linear integer arithmetic).
 Forking is by deterministic re-execution along a recorded decision vector.
 """
-import re, os, time
+import re, os, sys, time
 import z3
 
 # ===================================================================== parsing
@@ -181,8 +181,45 @@ class Opaque:
 class FloatV:
     def __init__(self, v): self.v = v; self.ty = 'f32'
 UNIT = Agg('()', None, [])
-def bv(v, ty): return Scalar(z3.IntVal(v), ty)
-TRUE = Scalar(z3.BoolVal(True), 'bool'); FALSE = Scalar(z3.BoolVal(False), 'bool')
+# Concrete values are plain Python ints / bools (fast path); only symbolic values are z3 terms.
+def is_c(e): return isinstance(e, int)          # bool is a subclass of int
+def Z(e):
+    """z3 term of a value that may be a Python constant"""
+    if isinstance(e, bool): return z3.BoolVal(e)
+    if isinstance(e, int): return z3.IntVal(e)
+    return e
+def z_not(a): return (not a) if isinstance(a, bool) else z3.Not(a)
+def z_and(*xs):
+    ys = []
+    for x in xs:
+        if x is False: return False
+        if x is True: continue
+        ys.append(x)
+    if not ys: return True
+    return ys[0] if len(ys) == 1 else z3.And(*ys)
+def z_or(*xs):
+    ys = []
+    for x in xs:
+        if x is True: return True
+        if x is False: continue
+        ys.append(x)
+    if not ys: return False
+    return ys[0] if len(ys) == 1 else z3.Or(*ys)
+def z_ite(c, a, b):
+    if isinstance(c, bool): return a if c else b
+    return z3.If(c, Z(a), Z(b))
+def norm(e):
+    """fold a z3 term that is a literal into a Python constant"""
+    if isinstance(e, int): return e
+    if z3.is_int_value(e): return e.as_long()
+    if z3.is_true(e): return True
+    if z3.is_false(e): return False
+    return e
+def sx(e):
+    """printable simplified form of a value that may be a Python constant"""
+    return e if isinstance(e, int) else z3.simplify(e)
+def bv(v, ty): return Scalar(int(v), ty)
+TRUE = Scalar(True, 'bool'); FALSE = Scalar(False, 'bool')
 def boolv(b): return TRUE if b else FALSE
 def some(v): return Agg('Option', 1, [v])
 def NONE(): return Agg('Option', 0, [])
@@ -192,6 +229,7 @@ def tup(*xs): return Agg('tuple', None, list(xs))
 def conc(s):
     """concrete python value of a Scalar or None"""
     e = s.e
+    if isinstance(e, int): return e
     if z3.is_int_value(e): return e.as_long()
     if z3.is_true(e): return True
     if z3.is_false(e): return False
@@ -208,6 +246,7 @@ _keep = []       # keeps z3 terms alive whose ids are used as dict keys
 INF = 1 << 200
 def rng(e):
     """interval of an Int term, conservative; (-INF, INF) if unknown"""
+    if isinstance(e, int): return (e, e)
     k = e.get_id()
     r = PATH_RNG.get(k)
     if r is not None: return r
@@ -237,7 +276,11 @@ def ty_range(ty):
     return (-(1 << (w - 1)), (1 << (w - 1)) - 1) if is_signed(ty) else (0, (1 << w) - 1)
 def wrap(e, ty):
     """reduce an Int term into the range of ty with two's complement wrap-around (exact)"""
-    lo, hi = ty_range(ty); a0, a1 = rng(e)
+    lo, hi = ty_range(ty)
+    if isinstance(e, int):
+        if lo <= e <= hi: return e
+        m = 1 << INT_W[ty]; return ((e - lo) % m) + lo
+    a0, a1 = rng(e)
     if lo <= a0 and a1 <= hi: return e
     m = 1 << INT_W[ty]
     if a0 >= lo and a1 <= hi + m: return z3.If(e > hi, e - m, e)
@@ -278,6 +321,33 @@ def sym_option(ex, name, inner):
     return l, p
 
 # ===================================================================== executor
+def parse_call(t):
+    """`dest = callee(args) -> [return: bbN, unwind ...]` or `... -> unwind ...` (diverging); None if not a call"""
+    m = re.search(r' -> \[return: (bb\d+), unwind[^\]]*\]$', t)
+    if m: body = t[:m.start()]; nxt = m.group(1)
+    else:
+        m = re.search(r' -> unwind [\w ]+$', t)
+        if not m: return None
+        body = t[:m.start()]; nxt = None
+    if not body.endswith(')') or ' = ' not in body: return None
+    stack = []; instr = False; last_open = None; i = 0; n = len(body)
+    while i < n:
+        c = body[i]
+        if instr:
+            if c == '\\': i += 2; continue
+            if c == '"': instr = False
+        else:
+            if c == '"': instr = True
+            elif c == '(': stack.append(i)
+            elif c == ')':
+                if not stack: return None
+                last_open = stack.pop()
+        i += 1
+    if stack or last_open is None: return None
+    head = body[:last_open]; argstr = body[last_open + 1:-1]
+    k = head.index(' = ')
+    return head[:k], head[k + 3:], argstr, nxt
+
 class Exec:
     def __init__(self, fns, models, overflow_checks=True, step_budget=30_000_000, query_timeout_ms=120_000):
         self.fns = fns; self.models = [(re.compile(p), f) for p, f in models]
@@ -302,14 +372,26 @@ class Exec:
         self.used_models = set(); self.used_fns = set()
         self.abstract_products = False; self.abstracted = 0; self.nprod = 0; self.no_aux = False
         self.covers = set()
+        self.fork_mode = False; self.is_child = False; self.child_hook = None; self.child_failures = 0
+        self.merge_patterns = []; self.merging = False; self.merge_cache = {}; self.nmerge = 0; self._g_asserted = []; self._spc = []
     # ---- forking
     def sync(self):
-        st = getattr(self, '_synced', None)
-        if st is None or st[0] is not self.pc or st[1] is not self.pc_global or st[2] > len(self.pc) or st[3] > len(self.pc_global):
-            self.solver.reset(); st = self._synced = [self.pc, self.pc_global, 0, 0]
-        for c in self.pc[st[2]:]: self.solver.add(c)
-        for c in self.pc_global[st[3]:]: self.solver.add(c)
-        st[2] = len(self.pc); st[3] = len(self.pc_global)
+        """bring the incremental solver in line with pc_global + pc (one push-scope per pc element, so that
+        truncating the path condition is a pop)"""
+        solver = self.solver; pc = self.pc
+        if getattr(self, '_g_list', None) is not self.pc_global or len(self.pc_global) < len(self._g_asserted):
+            solver.reset(); self._spc = []; self._g_list = self.pc_global; self._g_asserted = []
+        sp = self._spc; n = min(len(pc), len(sp)); i = 0
+        while i < n and pc[i] is sp[i]: i += 1
+        if i < len(sp):
+            solver.pop(len(sp) - i); del sp[i:]
+            for k, (c, d) in enumerate(self._g_asserted):
+                if d > i: solver.add(c); self._g_asserted[k] = (c, i)
+        for c in pc[i:]:
+            solver.push(); solver.add(c); sp.append(c)
+        g = self.pc_global
+        for c in g[len(self._g_asserted):]:
+            solver.add(c); self._g_asserted.append((c, len(sp)))
     def check(self, extra):
         self.stats['queries'] += 1
         self.sync()
@@ -320,6 +402,8 @@ class Exec:
         return r == z3.sat
     def cover(self, tag): self.covers.add(tag)
     def decide(self, cond):
+        if cond is True: return True
+        if cond is False: return False
         if z3.is_true(cond): return True
         if z3.is_false(cond): return False
         cond = z3.simplify(cond)
@@ -331,6 +415,18 @@ class Exec:
         t = self.check(cond); f = self.check(z3.Not(cond)) if t else True
         if t and f:
             self.stats['forks'] += 1
+            if self.fork_mode:
+                # OS-level fork instead of re-execution: the child explores the False branch (and its whole
+                # subtree) first, the parent waits and then continues with the True branch
+                sys.stdout.flush(); sys.stderr.flush()
+                pid = os.fork()
+                if pid == 0:
+                    self.is_child = True
+                    if self.child_hook: self.child_hook()
+                    self.decisions.append(False); self.pc.append(z3.Not(cond)); return False
+                _, st = os.waitpid(pid, 0)
+                if st != 0: self.child_failures += 1
+                self.decisions.append(True); self.pc.append(cond); return True
             self.pending.append(self.decisions + [False])
             self.decisions.append(True); self.pc.append(cond); return True
         if t: self.decisions.append(True); self.pc.append(cond); return True
@@ -338,6 +434,8 @@ class Exec:
         raise PathAbort()
     def assume(self, cond):
         """restrict the current path (precondition); aborts the path if infeasible"""
+        if cond is True: return
+        if cond is False: raise PathAbort()
         cond = z3.simplify(cond)
         if z3.is_true(cond): return
         if z3.is_false(cond): raise PathAbort()
@@ -350,7 +448,7 @@ class Exec:
         while self.pending:
             if len(out) >= max_paths: raise Unsupported('path budget (%d) exceeded' % max_paths)
             self.replay = self.pending.pop(); self.replay_pos = 0; self.decisions = []; self.pc = []; self.stack = []
-            PATH_RNG.clear(); _rng_memo.clear(); del _keep[:]
+            PATH_RNG.clear(); _rng_memo.clear(); del _keep[:]; self.nlazy = 0
             try:
                 r = body(); out.append((list(self.pc), r))
             except PathAbort: continue
@@ -393,7 +491,7 @@ class Exec:
         if mm: return Ref(Cell(self.mk_lazy(mm.group(1), name + '*')))
         return Lazy(ty, name)
     def discr_of(self, v):
-        if isinstance(v, Agg): return Scalar(z3.IntVal(v.variant if v.variant is not None else 0), 'isize')
+        if isinstance(v, Agg): return Scalar(v.variant if v.variant is not None else 0, 'isize')
         if isinstance(v, Lazy):
             if v.discr is None:
                 n = len(ENUMS.get(last_seg(v.ty), [])) or 2
@@ -560,35 +658,54 @@ class Exec:
         if isinstance(a, FloatV) or isinstance(b, FloatV):
             av = a.v if isinstance(a, FloatV) else float(conc(a)); bvv = b.v if isinstance(b, FloatV) else float(conc(b))
             return boolv({'Ge': av >= bvv, 'Gt': av > bvv, 'Lt': av < bvv, 'Le': av <= bvv, 'Eq': av == bvv, 'Ne': av != bvv}[op])
+        ae, be = a.e, b.e
         if a.ty == 'bool':
+            if isinstance(ae, bool) and isinstance(be, bool):
+                return boolv({'Eq': ae == be, 'Ne': ae != be, 'BitAnd': ae and be, 'BitOr': ae or be, 'BitXor': ae != be}[op])
             f = {'Eq': lambda x, y: x == y, 'Ne': lambda x, y: x != y, 'BitAnd': z3.And, 'BitOr': z3.Or, 'BitXor': z3.Xor}[op]
-            return Scalar(f(a.e, b.e), 'bool')
-        if op == 'Eq': return Scalar(a.e == b.e, 'bool')
-        if op == 'Ne': return Scalar(a.e != b.e, 'bool')
-        if op == 'Lt': return Scalar(a.e < b.e, 'bool')
-        if op == 'Le': return Scalar(a.e <= b.e, 'bool')
-        if op == 'Gt': return Scalar(a.e > b.e, 'bool')
-        if op == 'Ge': return Scalar(a.e >= b.e, 'bool')
+            return Scalar(f(Z(ae), Z(be)), 'bool')
+        both = isinstance(ae, int) and isinstance(be, int)
+        if op == 'Eq': return Scalar(ae == be, 'bool')
+        if op == 'Ne': return Scalar(ae != be, 'bool')
+        if op == 'Lt': return Scalar(ae < be, 'bool')
+        if op == 'Le': return Scalar(ae <= be, 'bool')
+        if op == 'Gt': return Scalar(ae > be, 'bool')
+        if op == 'Ge': return Scalar(ae >= be, 'bool')
         if op in ('Div', 'Rem'):
-            if is_signed(a.ty) and rng(a.e)[0] < 0: raise Unsupported('signed div of possibly negative value')
-            c = conc(b)
+            if both:
+                if be == 0: raise Panic('attempt to divide by zero')
+                if ae < 0 or be < 0: raise Unsupported('signed div of negative value')
+                return Scalar(ae // be if op == 'Div' else ae % be, a.ty)
+            if is_signed(a.ty) and rng(ae)[0] < 0: raise Unsupported('signed div of possibly negative value')
+            c = be if isinstance(be, int) else conc(b)
             if c is None: raise Unsupported('division by a symbolic value (stack %s)' % self.stack[-3:])
-            if c is not None and c > 0 and 0 <= rng(a.e)[0] and rng(a.e)[1] < c:
-                return Scalar(z3.IntVal(0) if op == 'Div' else a.e, a.ty)
-            return Scalar(z3.simplify(a.e / b.e if op == 'Div' else a.e % b.e), a.ty)
+            if c == 0: raise Panic('attempt to divide by zero')
+            if c > 0 and 0 <= rng(ae)[0] and rng(ae)[1] < c:
+                return Scalar(0 if op == 'Div' else ae, a.ty)
+            return Scalar(norm(z3.simplify(ae / c if op == 'Div' else ae % c)), a.ty)
         base = op[:-12] if op.endswith('WithOverflow') else op
         if base.endswith('Unchecked'): base = base[:-9]
         if base in ('Add', 'Sub', 'Mul'):
-            if base == 'Mul' and conc(a) is None and conc(b) is None:
+            lo, hi = ty_range(a.ty)
+            if both:
+                full = ae + be if base == 'Add' else (ae - be if base == 'Sub' else ae * be)
+                inr = lo <= full <= hi
+                if op.endswith('WithOverflow'): return Agg('tuple', None, [Scalar(full if inr else wrap(full, a.ty), a.ty), boolv(not inr)])
+                return Scalar(full if inr else wrap(full, a.ty), a.ty)
+            if base == 'Mul' and not isinstance(ae, int) and not isinstance(be, int):
                 if not self.abstract_products: raise Unsupported('non-linear multiplication (stack %s)' % self.stack[-3:])
-                (a0, a1), (b0, b1) = rng(a.e), rng(b.e); ps = [a0*b0, a0*b1, a1*b0, a1*b1]
+                (a0, a1), (b0, b1) = rng(ae), rng(be); ps = [a0*b0, a0*b1, a1*b0, a1*b1]
                 self.nprod += 1
                 pv = z3.Int('prod!%d!%d' % (len(self.decisions), self.nprod)); VAR_RANGE[pv.decl().name()] = (min(ps), max(ps))
                 self.pc_global.append(z3.And(pv >= min(ps), pv <= max(ps))); self.abstracted += 1
                 full = pv
             else:
-                full = z3.simplify({'Add': a.e + b.e, 'Sub': a.e - b.e, 'Mul': a.e * b.e}[base])
-            lo, hi = ty_range(a.ty); r0, r1 = rng(full)
+                full = norm(z3.simplify({'Add': lambda: ae + be, 'Sub': lambda: ae - be, 'Mul': lambda: ae * be}[base]()))
+                if isinstance(full, int):
+                    inr = lo <= full <= hi
+                    if op.endswith('WithOverflow'): return Agg('tuple', None, [Scalar(full if inr else wrap(full, a.ty), a.ty), boolv(not inr)])
+                    return Scalar(full if inr else wrap(full, a.ty), a.ty)
+            r0, r1 = rng(full)
             inrange = lo <= r0 and r1 <= hi
             if not inrange and not self.no_aux:
                 if self.aux(lambda: not self.check(z3.Or(full < lo, full > hi))):
@@ -602,7 +719,7 @@ class Exec:
               'AddWithOverflow', 'SubWithOverflow', 'MulWithOverflow', 'AddUnchecked', 'SubUnchecked', 'MulUnchecked')
     def cast(self, a, t):
         if isinstance(a, FloatV): raise Unsupported('float cast')
-        if a.ty == 'bool': return Scalar(z3.If(a.e, z3.IntVal(1), z3.IntVal(0)), t)
+        if a.ty == 'bool': return Scalar(int(a.e) if isinstance(a.e, bool) else z3.If(a.e, z3.IntVal(1), z3.IntVal(0)), t)
         if t not in INT_W: raise Unsupported('cast to ' + t)
         return Scalar(wrap(a.e, t), t)
     def compile_rvalue(self, s, dest_ty):
@@ -675,7 +792,7 @@ class Exec:
         if k == 'not':
             a = ev(frame, r[1])
             if a.ty != 'bool': raise Unsupported('bitwise not')
-            return Scalar(z3.Not(a.e), 'bool')
+            return Scalar(z_not(a.e), 'bool')
         if k == 'neg':
             a = ev(frame, r[1]); return Scalar(wrap(-a.e, a.ty), a.ty)
         if k == 'ptrmeta': return bv(len(self.strip(ev(frame, r[1])).cells), 'usize')
@@ -719,14 +836,12 @@ class Exec:
                     m = re.match(r'^assert\((!?)(.*?), "(.*?)".*\) -> \[success: (bb\d+), unwind.*\]$', t)
                     if m: term = ('assert', bool(m.group(1)), co(m.group(2)), m.group(3), m.group(4))
                     else:
-                        m = re.match(r'^(.*?) = (.*)\((.*)\) -> \[return: (bb\d+), unwind.*\]$', t)
-                        if m:
-                            dest, callee, argstr, nxt = m.groups()
-                            term = ('call', self.parse_place(dest.strip()), callee.strip(), [co(a) for a in split_top(argstr)], nxt)
+                        pc_ = parse_call(t)
+                        if pc_ is not None:
+                            dest, callee, argstr, nxt = pc_
+                            term = ('call', self.parse_place(dest.strip()) if nxt else None, callee.strip(), [co(a) for a in split_top(argstr)], nxt)
                         else:
-                            m = re.match(r'^(.*?) = (.*)\((.*)\) -> unwind.*$', t)
-                            if m: term = ('call', None, m.group(2).strip(), [co(a) for a in split_top(m.group(3))], None)
-                            else:
+                            if True:
                                 m = re.match(r'^drop\(.*\) -> \[return: (bb\d+), unwind.*\]$', t)
                                 if m: term = ('goto', m.group(1))
                                 else: raise Unsupported('terminator? ' + t)
@@ -756,7 +871,7 @@ class Exec:
                 self.write_place(frame, t[1][0], t[1][1], res); bb = t[4]
             elif k == 'switch':
                 v = self.eval_op(frame, t[1]); nxt = None
-                cv = conc(v)
+                cv = v.e if isinstance(v.e, int) else conc(v)
                 if cv is not None:
                     if cv is True: cv = 1
                     elif cv is False: cv = 0
@@ -774,7 +889,7 @@ class Exec:
                 bb = nxt
             elif k == 'assert':
                 cnd = self.eval_op(frame, t[2]).e
-                if t[1]: cnd = z3.Not(cnd)
+                if t[1]: cnd = z_not(cnd)
                 if self.decide(cnd): bb = t[4]
                 else: raise Panic(t[3] + ' @ ' + fn.name[-70:])
             elif k == 'unreachable': raise PathAbort()
@@ -785,11 +900,66 @@ class Exec:
             for pat, f in self.models:
                 if pat.match(callee): tgt = ('m', f, pat.pattern); break
             else:
-                tgt = ('f', self.resolve_fn(callee))
+                fn = self.resolve_fn(callee)
+                tgt = ('g' if any(fn.name.endswith(p_) for p_ in self.merge_patterns) else 'f', fn)
             self.call_cache[callee] = tgt
         if tgt[0] == 'm':
             self.used_models.add(tgt[2]); return tgt[1](self, callee, args)
+        if tgt[0] == 'g': return self.call_merged(tgt[1], args)
         return self.call_fn(tgt[1], args)
+    def call_merged(self, fn, args):
+        """state merging for pure query functions: explore the callee's paths locally and return ONE value whose
+        leaves are ite-terms over the callee's path conditions, instead of forking the caller"""
+        if self.merging: return self.call_fn(fn, args)
+        self.merging = True; self.nmerge += 1
+        saved = (self.decisions, self.replay, self.replay_pos, self.pending, self.fork_mode, self.no_aux)
+        base = len(self.pc); sdepth = len(self.stack)
+        leaves = []; pending = [[]]; self.fork_mode = False; self.no_aux = True
+        try:
+            while pending:
+                vec = pending.pop()
+                self.decisions = []; self.replay = vec; self.replay_pos = 0; self.pending = pending
+                del self.pc[base:]; del self.stack[sdepth:]
+                try:
+                    v = self.call_fn(fn, [copy_val(a) for a in args]); leaves.append((self.pc[base:], v))
+                except PathAbort: pass
+                except Panic as p: leaves.append((self.pc[base:], p))
+        finally:
+            self.decisions, self.replay, self.replay_pos, self.pending, self.fork_mode, self.no_aux = saved
+            del self.pc[base:]; del self.stack[sdepth:]; self.merging = False
+        items = []
+        for cs, v in leaves:
+            c = z_and(*cs)
+            if isinstance(v, Panic):
+                if self.decide(Z(c)): raise v
+            else: items.append((c, v))
+        if not items: raise PathAbort()
+        return self.merge_values(items)
+    def merge_values(self, items):
+        vals = [v for c, v in items]; v0 = vals[0]
+        if len(items) == 1: return v0
+        if all(isinstance(v, Scalar) for v in vals):
+            if all(isinstance(v.e, int) and v.e == v0.e and type(v.e) is type(v0.e) for v in vals): return v0
+            e = Z(vals[-1].e)
+            for c, v in reversed(items[:-1]): e = z3.If(Z(c), Z(v.e), e)
+            return Scalar(norm(z3.simplify(e)), v0.ty)
+        if all(v is v0 for v in vals): return v0
+        if all(isinstance(v, Agg) for v in vals) and all(v.ty == v0.ty and len(v.fields) == len(v0.fields) and v.variant == v0.variant for v in vals):
+            if v0.ty == 'Arc': raise Unsupported('merge of Arc values')
+            return Agg(v0.ty, v0.variant, [self.merge_values([(c, v.fields[i]) for c, v in items]) for i in range(len(v0.fields))])
+        if all(isinstance(v, (Agg, Lazy)) for v in vals) and len(set(last_seg(v.ty) for v in vals)) == 1 and last_seg(v0.ty) in ENUMS:
+            en = last_seg(v0.ty); names = ENUMS[en]
+            self.nlazy = getattr(self, 'nlazy', 0) + 1
+            L = Lazy(en, 'merged!%d' % self.nlazy)
+            L.discr = norm(z3.simplify(self.merge_values([(c, self.discr_of(v)) for c, v in items]).e)) if True else None
+            if isinstance(L.discr, int): L.discr = z3.IntVal(L.discr)
+            groups = {}
+            for c, v in items:
+                if isinstance(v, Lazy): raise Unsupported('merge of lazy enum values')
+                for i, f in enumerate(v.fields): groups.setdefault((names[v.variant], i), []).append((c, f))
+            for key, its in groups.items(): L.kids[key] = self.merge_values(its)
+            return L
+        raise Unsupported('cannot merge values %r' % vals[:3])
     def call_closure(self, clo, args):
         c = clo
         while isinstance(c, Ref): c = self.deref_val(c)
